@@ -15,7 +15,8 @@ CHECKS = {
         text="Decides, for every path and every input, three structural necessary conditions of C05 on the receive path: (EXC) no exception "
              "other than ValueError escapes a wire parser and nothing but ConnectionError/CancelledError escapes a receive root; (PROG) every "
              "cursor-driven parsing loop strictly advances (serial cursors only by modular steps); (COST) wire-controlled loop nests are tied to the datagram length or to local state; "
-             "(TIMER) timer starters are preceded by cancel/guard on every path; (SIGN) counters decreased by received lengths are clamped before serialisation. "
+             "(TIMER) timer starters are preceded by cancel/guard on every path; (SIGN) counters decreased by received lengths are clamped before serialisation; (PREMISE) the rules the "
+             "exemption table cites (C01-DUP, C07-LEN, C10-BOUND) hold. "
              "It does not decide memory growth over histories, native-library behaviour or wall-clock time.",
         ref="DESIGN.md section 3 C05 and section 9"),
     "C12": dict(
@@ -32,7 +33,8 @@ CHECKS = {
         text="Decides the guard table (24 cells + createAnswer + closed latch), the next-state literals, that every write to signalingState and "
              "the four description slots is dominated by __validate_description (and nothing called earlier may write them), that the m-line "
              "match is order-sensitive, that close() latches before suspending, the description-slot updates per type, and that the per-section structural checks reject "
-             "defective audio / video / application sections alike. These determine the state machine for all call sequences "
+             "defective audio / video / application sections alike whatever the connection has been through before (history domain over the fields the check reads), and that the "
+             "RTCSessionDescription constructor accepts exactly the four SDP types. These determine the state machine for all call sequences "
              "over the property's alphabet; pranswer/rollback and side effects outside the five slots are not decided.",
         ref="DESIGN.md section 3 C14"),
 }
@@ -41,7 +43,8 @@ CHECKS["C19"] = dict(
     technique="must-event analysis on normal and exceptional exits (event set on every exit, wait/cancel/wait order), call-graph reachability of handle releases, resolved receiver types for close() coverage",
     text="Decides the structural core of 'nothing left running': every awaited asyncio.Event is set on every exit of its setter (task bodies: "
          "also when any await raises), stop() orders wait-started / cancel / wait-exited, every stored task, timer or thread handle has a "
-         "cancel/join/await reachable from its owner's stop(), close() stops an object of every stoppable class and finishes its state update; once closed the aggregated states latch on `closed` and stay silent; every data channel "
+         "cancel/join/await reachable from its owner's stop(), close() stops an object of every stoppable class and finishes its state update; close() evaluated on bundling layouts stops every transceiver, the SCTP transport and every "
+         "DTLS / ICE transport reachable from them; pyOpenSSL calls on the DTLS stop() path are inside a handler for SSL.Error; once closed the aggregated states latch on `closed` and stay silent; every data channel "
          "container is drained; a receiver that was never started still ends its remote track. "
          "It does not decide bounded-time completion under every interleaving or the absence of events after close.",
     ref="DESIGN.md section 3 C19")
@@ -59,7 +62,8 @@ CHECKS["C10"] = dict(
     technique="exception-escape analysis of JitterBuffer.add under an inductively checked class invariant; who-may-write scan; sibling-structure rules; serial-number qualifier analysis; def-use; evaluation of add() by the checker's interpreter over enumerated arrival schedules",
     text="Decides: add() cannot raise for any packet (ring indices discharged by the invariant len(_packets) == _capacity and x % capacity < capacity); the ring "
          "never grows; every direct discard raises the video PLI flag; the late-packet reset threshold is the constant 100; sequence numbers and timestamps are "
-         "only handled through wrap-safe operations and `is None` sentinels; the receiver uses add()'s two results faithfully; on enumerated loss-free schedules (frame sizes x "
+         "only handled through wrap-safe operations and `is None` sentinels; the receiver uses add()'s two results faithfully and hands every packet of a negotiated codec "
+         "(empty payloads and retransmissions included) to add() exactly once under its own numbers; on enumerated loss-free schedules (frame sizes x "
          "prefetch x adjacent swap x wrap) every frame comes out whole, once, in order; with a permanent loss and a burst at overflow only whole frames or - right after a discard - "
          "tails are released and a PLI is raised. Other arrival histories are not decided.",
     ref="DESIGN.md section 3 C10")
@@ -68,14 +72,16 @@ CHECKS["C13"] = dict(
     text="Decides: readyState only moves forward at every _setReadyState call site; DATA_CHANNEL_OPEN written and read agree for all ordering/reliability "
          "combinations and non-ASCII labels/protocols; bufferedAmount is raised and lowered by len() of the very bytes queued/sent and bufferedamountlow fires "
          "exactly on downward crossings; ids have role parity and step 2, a reset is only queued for a channel with an id, and association close closes every "
-         "channel unconditionally; a completed reset request is cleared before the reset queue is restarted; channels in every container are closed with the association; 23 end-to-end lifecycle scenarios "
-         "between two abstract transports (settings classes, messages, close from either side, id reuse, simultaneous opens, negotiated pairs, close before ACK, overlapping closes). It does not decide behaviour under fault schedules or open/close races beyond the transition relation.",
+         "channel unconditionally; a completed reset request is cleared before the reset queue is restarted; channels in every container are closed with the association; about 30 end-to-end lifecycle scenarios "
+         "between two abstract transports (settings classes, messages, close from either side, id reuse, simultaneous opens, negotiated pairs, close before ACK, overlapping closes, channels closed before the "
+         "association is up, ESTABLISHED entered twice). It does not decide behaviour under fault schedules or open/close races beyond the transition relation.",
     ref="DESIGN.md section 3 C13")
 CHECKS["C15"] = dict(
     technique="exception-escape analysis of RemoteBitrateEstimator.add with intervals, float bounds and class invariants; paired-update rule; must-event guard rule; grid evaluation of the clamp expressions",
     text="Decides: no division by zero, negative sqrt, bad index or unbounded REMB SSRC count can escape the estimator; _total changes only together with the "
          "buckets; the SSRC bookkeeping keeps the newest and evicts the oldest; the whole pipeline evaluated on packet histories gives identical estimates across the 24-bit send-time wrap; the latest measurement is recorded whenever one exists; update() returns the clamped value and the clamp / over-use cut respect the 1.5x+10kbit/s "
-         "and 85 % bounds on a grid of values. Two numeric denominators are exempted with reasons. It does not decide the numeric behaviour of the filter.",
+         "and 85 % bounds on a grid of values; float powers have bounded exponents; the receiver feeds the estimator for every stamped packet (stamp 0 included) with its size / SSRC / arrival time and "
+         "forwards its result as REMB. Two numeric denominators and one power are exempted with reasons. It does not decide the numeric behaviour of the filter.",
     ref="DESIGN.md section 3 C15")
 CHECKS["C16"] = dict(
     technique="finite-domain evaluation of descriptor writer/reader over the complete flag space and of the packetisers over boundary size classes; linear length forms for the STAP-A budget",
@@ -88,7 +94,7 @@ CHECKS["C18"] = dict(
     technique="data-dependence and guard (must-event) rules, serial qualifier analysis, grid evaluation of fraction_lost against RFC 3550 A.3, interval analysis of the packed report fields",
     text="Decides: the reported highest sequence includes wrap cycles and the cycle counter only advances for in-order packets; timestamp differences are reduced "
          "modulo 2^32; fraction_lost equals the RFC formula on a grid incl. duplicates/late arrivals; packets_lost, highest_sequence, jitter and lsr provably fit "
-         "their RTCP fields; dlsr is 0 or the scaled delay and within 32 bits on a grid of delays; StreamStatistics equals an RFC 3550 reference on enumerated packet sequences. Numeric equality over histories is not decided.",
+         "their RTCP fields; dlsr is 0 or the scaled delay and within 32 bits on a grid of delays; StreamStatistics equals an RFC 3550 reference on enumerated packet sequences (losses, duplicates, late copies of the newest packet, wraps). Numeric equality over histories is not decided.",
     ref="DESIGN.md section 3 C18")
 
 CHECKS["C01"] = dict(
@@ -98,7 +104,7 @@ CHECKS["C01"] = dict(
          "invertible; _send assigns consecutive TSNs modulo 2^32, B/E/U flags and one stream sequence number per message and its fragments tile the message for "
          "sizes around the fragment boundary; the stream id used for delivery is the chunk's; stream resets clear the per-stream tables; TSN / stream-sequence "
          "arithmetic is wrap-safe (C17 rule set); for every arrival order (plus a duplicate) of interleaved messages on two streams _receive_data_chunk delivers each message "
-         "once, intact, in order and leaves nothing queued; abandonment / FORWARD-TSN never touch other messages (C06 rules). Arrival orders beyond the enumerated families "
+         "once, intact, in order and leaves nothing queued; abandonment / FORWARD-TSN never touch other messages (C06 rules); lost chunks keep being retransmitted (C02 timer / kick / flight-size rules). Arrival orders beyond the enumerated families "
          "are not decided.",
     ref="DESIGN.md section 3 C01")
 CHECKS["C04"] = dict(
@@ -122,7 +128,7 @@ CHECKS["C07"] = dict(
     technique="agreement of sibling writer/reader implementations: the ast of each serialiser and parser is evaluated by the checker's own interpreter over enumerated boundary-class domains (no aiortc code is imported or run)",
     text="Decides writer/reader agreement per field class: header-extension one-/two-byte form and per-extension value widths; generic NACK as a set of 16-bit "
          "sequence numbers incl. wrap; the 24-bit signed cumulative loss at its boundaries; REMB mantissa/exponent (never rounds up, relative error < 2^-17); "
-         "RR/SR/SDES/BYE/PSFB compound packets for counts 0..3 and all length residues; RtpPacket CSRC/marker/padding classes and wrap_rtx/unwrap_rtx; every "
+         "RR/SR/SDES/BYE/PSFB compound packets for counts 0..3 and all length residues; RtpPacket CSRC/marker/padding/header-extension classes with the RFC 3550 layout of the written bytes, and wrap_rtx/unwrap_rtx; every "
          "RTCP payload a multiple of 4. It decides agreement on class representatives, not equality for every value.",
     ref="DESIGN.md section 3 C07")
 CHECKS["C11"] = dict(
@@ -130,13 +136,14 @@ CHECKS["C11"] = dict(
     text="Decides: every path of NackGenerator.add that can add to `missing` reaches truncate(); the NACK window, the sender's history store and lookup use one "
          "constant; a retransmission is sent only for the exact sequence number asked for; unwrap_rtx is dominated by the payload-length, apt and SSRC-mapping "
          "checks and the media codec is used afterwards; statistics see the wire packet while NACK generation and the jitter buffer see the unwrapped one; "
-         "serial discipline in the RTP sender/receiver; shared rules: NACK wire format and RTX wrapping (C07), jitter-buffer frame integrity on enumerated schedules (C10). It does not decide eventual recovery or byte identity of decoder input under loss schedules.",
+         "serial discipline in the RTP sender/receiver; the sender's RTX payload type is the one whose apt is the encoding codec (evaluated on codec-list layouts); media packets and unwrapped "
+         "retransmissions reach the jitter buffer exactly once; shared rules: NACK wire format and RTX wrapping (C07), jitter-buffer frame integrity on enumerated schedules (C10). It does not decide eventual recovery or byte identity of decoder input under loss schedules.",
     ref="DESIGN.md section 3 C11")
 
 CHECKS["C09"] = dict(
     technique="writer/reader attribute-table extraction and set comparison; agreement of sibling serialiser/parser implementations by evaluating their asts with the checker's interpreter over an enumerated family of descriptions, candidates and fmtp dictionaries",
     text="Decides: every line kind the two __str__ writers can emit has a branch in the matching loop of SessionDescription.parse; the DTLS role tables are mutual "
-         "inverses; on 45 generated descriptions (each optional field present/absent, all directions, roles, section kinds, legacy SCTP) serialise-parse-serialise "
+         "inverses; on about 60 generated descriptions (each optional field present/absent, all directions, roles, section kinds, legacy SCTP, groups without members, unbundled sections with their own transport parameters) serialise-parse-serialise "
          "is a fixed point and every field is recovered; one round is idempotent on 4 foreign texts; candidate lines and the contrib signaling codec round-trip for "
          "96 candidate shapes incl. IPv6; fmtp dictionaries round-trip for None/0/empty/'='-bearing values. Agreement on representatives, not all texts.",
     ref="DESIGN.md section 3 C09")
@@ -147,7 +154,8 @@ CHECKS["C03"] = dict(
          "negotiated transceiver state is only read for transceivers selected through the description; createAnswer appends exactly one section per remote section on "
          "every path, looked up by the remote mid, and BUNDLE lists the mids in order; find_common_codecs/header_extensions select only offered entries with the offerer's "
          "payload types/ids on boundary scenarios (96, 127, static, RTX/base pairs, H264 profiles); the ICE role is assigned once per transport; bundling moves each object once (guard + latch); DTLS roles are definite and "
-         "complementary; description slots are updated per type. It does not decide that every configuration negotiates and connects.",
+         "complementary; description slots are updated per type; RTCIceTransport.start() returns only after the connection attempt (its own or the one in progress) is over and __connect() orders ICE, DTLS "
+         "and media starts. It does not decide that every configuration negotiates and connects.",
     ref="DESIGN.md section 3 C03")
 
 CHECKS["C02"] = dict(
@@ -156,8 +164,9 @@ CHECKS["C02"] = dict(
          "whose _acked is False (so the cumulative-ack path undoes it), acks decrease under exactly `not _acked`, a T3 expiry leaves nothing counted; T3 is armed on "
          "every path of start/restart, after every data (re)transmission, cleared and followed by _transmit on expiry, cancelled only with nothing outstanding; every "
          "producer of the three queues starts its consumer on every exit, accepted SACKs reach flush and transmit; cwnd never drops below one MTU; the receive loop cannot be killed by a "
-         "repeated chunk (timer typestate) or a negative window (sign rule); wrap-safe sequence arithmetic; the receive state is only re-initialised under an association-state guard; nothing complete stays queued for the enumerated arrival orders. It does not decide "
-         "delivery in bounded time or absence of stalls over all fault histories (abandoned fragments of partially reliable messages are outside the rules).",
+         "repeated chunk (timer typestate) or a negative window (sign rule); wrap-safe sequence arithmetic; the receive state is only re-initialised under an association-state guard; nothing complete stays queued for the enumerated arrival orders; the sender's real transmit / SACK / T3 / abandon code evaluated on loss scenarios (reliable and partially "
+         "reliable messages, fast-retransmit and T3 paths) never counts more bytes in flight than are outstanding and transmits new data once everything is acknowledged. It does not decide "
+         "delivery in bounded time or absence of stalls over all fault histories.",
     ref="DESIGN.md section 3 C02")
 
 CHECKS["C06"] = dict(
@@ -165,8 +174,8 @@ CHECKS["C06"] = dict(
     text="Decides: an abandoned chunk is never (re)transmitted (pairing of _abandoned/_retransmit stores, retransmission guarded by _maybe_abandon); loops that may abandon "
          "iterate over a snapshot of the sent queue; FORWARD-TSN is built only from the abandoned prefix and sent before data; for every enumerated layout (message of 1..4 "
          "fragments, 1..k sent, trigger fragment, ordered/unordered, reliable prefix or not) exactly that message's fragments - sent or queued - are abandoned and the FORWARD-TSN "
-         "is exact; for every subset of already received chunks of two reliable messages next to an abandoned one the receiver delivers them once, intact, in order. It does "
-         "not decide behaviour under fault schedules.",
+         "is exact (also when the first fragments were already acknowledged or a gap-acked reliable chunk follows); the FORWARD-TSN is rebuilt until the peer has caught up and not afterwards; for every subset of already received chunks of two reliable messages next to an abandoned one the receiver delivers them once, intact, in order; a partly received abandoned message (ordered or unordered) is dropped and the next message comes out; a repeated "
+         "FORWARD-TSN never rewinds a stream. It does not decide behaviour under fault schedules beyond these families.",
     ref="DESIGN.md section 9.4 C06")
 
 NOT_APPLICABLE = {}
